@@ -95,7 +95,7 @@ def run(tier, seed):
     rng = ctx.rng
     if tier == "quick":
         degrees = [1, 2, 3, 4, 5, 6, 7, 8, 10, 12, 16, 20, 25, 30, 40, 50, 60]
-        per_degree, exh, nsample = 2, 4, 4
+        per_degree, exh, nsample = 4, 4, 4
     else:
         degrees = list(range(1, 31)) + [35, 40, 45, 50, 55, 60]
         per_degree, exh, nsample = 6, 8, 12
